@@ -498,12 +498,24 @@ def _validation(db, chk, m):
                 return "name"
             if name.endswith("simple_cycles") or name.endswith("find_cycle"):
                 return []
+            # the other spellings of networkx' edge view over the same one edge: G.edges(data=True | key), G.edges.data(key), G.get_edge_data(u, v)
+            if name in ("self.edges", "self.edges.data"):
+                key = kw.get("data", pos[0] if pos else None)
+                if key is True:
+                    return [PyTuple([0, 1, state["data"]])]
+                if isinstance(key, str):
+                    return [PyTuple([0, 1, state["data"].get(key, kw.get("default"))])]
+                return [PyTuple([0, 1])]
+            if name == "self.get_edge_data" and len(pos) == 2:
+                return state["data"]
             return NotImplemented
         I = Interp(db, call_hook=hook)
+        state = {}
 
         def args(I):
             e = Obj("edge", attrs={"weight": w, "type": ("enum", "CPEdgeType", ty), "begin": 0, "end": 1})
-            edges = {to_term(PyTuple([0, 1])): {"object": e, "weight": w, "type": ("enum", "CPEdgeType", ty)}}
+            state["data"] = {"object": e, "weight": w, "type": ("enum", "CPEdgeType", ty)}
+            edges = {to_term(PyTuple([0, 1])): state["data"]}
             nl = [Obj("n0", attrs={"ev_idx": 10, "idx": 0, "is_start": False, "is_blocking": False}), Obj("n1", attrs={"ev_idx": 11, "idx": 1, "is_start": True, "is_blocking": False})]
             tdf = Obj("trace_df", attrs={"stream": Obj("stream", attrs={"loc": {10: streams[0], 11: streams[1]}})})
             return {"self": Obj("self", cls=(m, "CPGraph"), attrs={"edges": edges, "node_list": nl, "trace_df": tdf})}
